@@ -12,8 +12,9 @@ From Coq Require Import ZArith List String Bool.
 Import ListNotations.
 Open Scope string_scope.
 
-(* a tensordict as an insertion-ordered tree; leaves carry a symbolic content *)
-Inductive tree := Leaf (v : Z) | Node (f : forest)
+(* a tensordict as an insertion-ordered tree; a leaf is a tensor OBJECT: its identity (a storage / object id; 0 is used for
+   tensors freshly returned by the user function) and its symbolic content *)
+Inductive tree := Leaf (i : nat) (v : Z) | Node (f : forest)
 with forest := FNil | FCons (k : string) (t : tree) (f : forest).
 
 Fixpoint fget (f : forest) (k : string) : option tree :=
@@ -29,7 +30,28 @@ Fixpoint fset (f : forest) (k : string) (t : tree) : forest :=
   | FCons k' t' r => if String.eqb k k' then FCons k' t r else FCons k' t' (fset r k t)
   end.
 
-Definition is_node (t : tree) : bool := match t with Node _ => true | Leaf _ => false end.
+(* in-place writes (_set_str(key, value, inplace=BEST_ATTEMPT_INPLACE)): an existing tensor is written with copy_ — it keeps its
+   identity and takes the new content; an existing nested tensordict is updated entry by entry (dest.update(value, inplace=True));
+   a key that does not exist yet is set as a new entry *)
+Fixpoint set_with (m : tree -> tree) (f : forest) (k : string) (t : tree) : forest :=
+  match f with
+  | FNil => FCons k t FNil
+  | FCons k' t' r => if String.eqb k k' then FCons k' (m t') r else FCons k' t' (set_with m r k t)
+  end.
+Fixpoint merge_t (new old : tree) {struct new} : tree :=
+  match new, old with
+  | Leaf _ v, Leaf i _ => Leaf i v
+  | Node g, Node f => Node (merge_f g f)
+  | _, _ => new
+  end
+with merge_f (g f : forest) {struct g} : forest :=
+  match g with
+  | FNil => f
+  | FCons k t r => merge_f r (set_with (merge_t t) f k t)
+  end.
+Definition fset_ip (f : forest) (k : string) (t : tree) : forest := set_with (merge_t t) f k t.
+
+Definition is_node (t : tree) : bool := match t with Node _ => true | Leaf _ _ => false end.
 Definition fempty (f : forest) : bool := match f with FNil => true | _ => false end.
 
 (* self.empty(recurse=True): the structure without the leaves *)
@@ -38,7 +60,7 @@ Fixpoint skeleton (f : forest) : forest :=
   | FNil => FNil
   | FCons k t r =>
       match t with
-      | Leaf _ => skeleton r
+      | Leaf _ _ => skeleton r
       | Node g => FCons k (Node (skeleton g)) (skeleton r)
       end
   end.
@@ -80,7 +102,7 @@ Fixpoint others_node (d : dflt) (self : forest) (others : list forest) (k : stri
   | o :: r =>
       match fget o k with
       | Some (Node g) => abind (others_node d self r k) (fun l => AOk (g :: l))
-      | Some (Leaf _) => ARaised AOther
+      | Some (Leaf _ _) => ARaised AOther
       | None =>
           match d with
           | NoDefault => ARaised AKey
@@ -101,8 +123,10 @@ Variable fn : userfn.
 Variable o : opts.
 
 (* result = None until the first non-None item (make_result), unless inplace / out *)
+(* result._set_str(key, item_trsf, inplace=BEST_ATTEMPT_INPLACE if inplace else False, ...) *)
+Definition set_entry (f : forest) (k : string) (v : tree) : forest := if o_inplace o then fset_ip f k v else fset f k v.
 Definition set_result (res : option forest) (k : string) (v : tree) : option forest :=
-  Some (fset (match res with Some r => r | None => FNil end) k v).
+  Some (set_entry (match res with Some r => r | None => FNil end) k v).
 
 Definition out_child (out : option forest) (k : string) : option forest :=
   match out with
@@ -131,7 +155,7 @@ Fixpoint apply_items (d : dflt) (con : bool) (prefix : list string) (self : fore
                  let out' := out_child out k in
                  abind (apply_items d false (prefix ++ [k])%list g others' out' g (if o_inplace o then Some g else out') false)
                        (fun ra => AOk (option_map Node (finish_apply g (fst ra) (snd ra)))))
-        | Leaf _ => abind (others_leaf d others k) (fun ov => AOk (fn (keyarg o prefix k) item ov))
+        | Leaf _ _ => abind (others_leaf d others k) (fun ov => AOk (fn (keyarg o prefix k) item ov))
         end in
       abind trsf (fun t =>
       match t with
@@ -168,7 +192,7 @@ Fixpoint flat_items (d : dflt) (con : bool) (prefix : list string) (self : fores
                  (* default= is forwarded (fix S15); call_on_nested= is not (neither does _apply_nest) *)
                  abind (flat_items d false (prefix ++ [k])%list g others' g base)
                        (fun tl => AOk (fst tl, LList (snd tl))))
-        | Leaf _ => abind (others_leaf d others k) (fun ov =>
+        | Leaf _ _ => abind (others_leaf d others k) (fun ov =>
                     AOk ([{| tk_key := keyarg o prefix k; tk_item := item; tk_others := ov |}], LFut base))
         end in
       abind here (fun h =>
@@ -211,6 +235,9 @@ Definition finish_rebuild (self st : forest) (any_set : bool) : option forest :=
 
 Definition unopt (r : option forest) : forest := match r with Some f => f | None => FNil end.
 
+(* the setter: `checked and isinstance(result, TensorDict) and (inplace is not True)` -> result._tensordict[key] = item (a rebinding,
+   only when NOT in place); otherwise result._set_str(key, item, inplace=BEST_ATTEMPT_INPLACE if inplace else False): both are
+   [set_entry] — in place the existing leaves are written into and keep their identity *)
 (* result object of a level: self (inplace), out (the level's own out, i.e. out[key] below the root — fix S16), or a new one *)
 Fixpoint rebuild_items (out : option forest) (items : forest) (lfs : list lf) (st : forest) (any_set : bool)
   : rb (forest * bool) :=
@@ -221,18 +248,18 @@ Fixpoint rebuild_items (out : option forest) (items : forest) (lfs : list lf) (s
       | LFut id =>
           match log_get log id with
           | None => RbStuck
-          | Some (Some v) => rebuild_items out rest lrest (fset st k v) true
+          | Some (Some v) => rebuild_items out rest lrest (set_entry o st k v) true
           | Some None => rebuild_items out rest lrest st any_set
           end
       | LList sub =>
           match item with
-          | Leaf _ => RbStuck
+          | Leaf _ _ => RbStuck
           | Node g =>
               let out' := out_child out k in
               let init := if o_inplace o then g else unopt out' in
               rbbind (rebuild_items out' g sub init false) (fun r =>
               match finish_rebuild g (fst r) (snd r) with
-              | Some st' => rebuild_items out rest lrest (fset st k (Node st')) true
+              | Some st' => rebuild_items out rest lrest (set_entry o st k (Node st')) true
               | None => rebuild_items out rest lrest st any_set
               end)
           end
@@ -270,7 +297,7 @@ Fixpoint ntasks (con : bool) (f : forest) : nat :=
   | FNil => 0
   | FCons _ t r =>
       match t with
-      | Leaf _ => 1
+      | Leaf _ _ => 1
       | Node g => if con then 1 else ntasks false g
       end + ntasks con r
   end.
